@@ -1,42 +1,66 @@
 From Coq Require Import List NArith Bool.
 From V.gen Require Consts.
-From V.C02 Require Import Model Proofs.
+From V.gen Require NoiseKinds.
+From V.C02 Require Import Model Proofs Tamper Duplex Buffer Kinds.
 Import ListNotations.
 Open Scope N_scope.
 From V.C02 Require Import Properties.
 Check (C02_read_exact :
   forall e, wf_env e -> forall bufs sc,
-  pieces_ok 0 bufs (run_reader e bufs sc (reader_init (e_cfg e)))).
+  pieces_ok 0 bufs sc (run_reader e bufs sc (reader_init (e_cfg e)))).
 Check (C02_read_invariant :
-  forall e, wf_env e -> forall bufs sc D r, Inv e D r -> run_ok e D bufs (run_reader e bufs sc r)).
+  forall e, wf_env e -> forall bufs sc D r, Inv e D r -> run_ok e D bufs sc (run_reader e bufs sc r)).
 Check (C02_poll_read_step :
   forall e b, wf_env e -> forall sc D r x r' sc',
-  Inv e D r -> poll_read e b sc r = (x, r', sc') -> res_ok e b D x r').
+  Inv e D r -> poll_read e b sc r = (x, r', sc') -> res_ok e b D sc x r').
 Check (C02_fail_stop :
-  forall e bufs sc r,
-  fail_stop (match r_state r with Failed => true | _ => false end) (run_reader e bufs sc r)).
+  forall e bufs sc r, fail_stop (is_failed r) (run_reader e bufs sc r)).
 Check (C02_failed_repoll :
   forall e b sc r, r_state r = Failed -> poll_read e b sc r = (RErr E_INVALID, set_lp r false, sc)).
 Check (C02_read_honest :
   forall c plains, 1 <= c_factor c -> c_mfl c + TAG <= SNOW_MAX -> plains_ok c plains ->
   forall bufs sc,
   let tr := run_reader (honest_env c plains) bufs sc (reader_init c) in
-  pieces_ok 0 bufs tr /\ honest_ok (wire_len (honest plains)) (sum plains) 0 tr).
+  pieces_ok 0 bufs sc tr /\ honest_ok (wire_len (honest plains)) (sum plains) 0 tr).
 Check (C02_read_tamper :
   forall e j, wf_env e -> not_auth e j -> forall bufs sc,
   delivered (run_reader e bufs sc (reader_init (e_cfg e))) <= pstart (e_plains e) j).
+Check (C02_read_clean_prefix :
+  forall e, wf_env e -> forall bufs sc,
+  delivered (run_reader e bufs sc (reader_init (e_cfg e))) <=
+  clean_prefix (e_items e) (e_plains e) 0 (e_avail e)).
+Check (C02_tamper_wf :
+  forall c plains ts, 1 <= c_factor c -> c_mfl c + TAG <= SNOW_MAX -> plains_ok c plains ->
+  wf_env (env_of c plains ts)).
+Check (C02_nonce_discipline :
+  forall e D r, wf_env e -> Inv2 e D r -> forall j, j < r_ctr r ->
+  exists it p, nthI (e_items e) j = Some it /\ nthP (e_plains e) j = Some p /\
+               i_hdr it = i_blen it /\ i_blen it = p + TAG /\ i_auth it = Some j).
+Check (C02_nonce_step :
+  forall e b sc r x r' sc', poll_read e b sc r = (x, r', sc') ->
+  r_ctr r' = r_ctr r \/ (r_ctr r' = r_ctr r + 1 /\ exists n pos, x = RReady n pos)).
+Check (C02_wire_grows :
+  forall e e' D r, wf_env e -> ext e e' -> Inv2 e D r -> Inv2 e' D r).
 Check (C02_read_pending_has_waker :
   forall e b sc r r' sc', poll_read e b sc r = (RPending, r', sc') -> r_lp r' = true).
+Check (C02_buffer_window :
+  forall e bufs sc r bf r' bf', Win bf r -> run_buf e bufs sc r bf = (r', bf') -> Win bf' r').
+Check (C02_buffer_window_step :
+  forall e b sc r bf x r' sc',
+  Win bf r -> poll_read e b sc r = (x, r', sc') -> Win (poll_read_buf e b sc r bf) r').
+Check (C02_buffer_slice :
+  forall bf r fs, Win bf r -> r_offset r + fs <= r_nread r ->
+  forall i, i < fs -> bf (r_offset r + i) = Some (r_wbase r + r_offset r + i)).
 Check (C02_write_frames :
   forall c, 1 <= c_mfl c -> c_mfl c + TAG <= SNOW_MAX -> 1 <= c_wbuf c ->
   forall ops sc w tr wf ok, WInv c w -> run_writer c ops sc w = (tr, wf, ok) ->
   ok = true /\ WInv c wf /\ sum (w_frames wf) = sum (w_frames w) + accepted ops tr /\
-  wrun_ok ops tr /\ (w_cclosed w = true -> w_cclosed wf = true /\ w_sent wf = w_sent w)).
+  wrun_ok ops sc (w_cclosed w) tr /\ (w_cclosed w = true -> w_cclosed wf = true /\ w_sent wf = w_sent w)).
 Check (C02_poll_write_step :
   forall c len sc w x w' sc',
   1 <= c_mfl c -> c_mfl c + TAG <= SNOW_MAX -> 1 <= c_wbuf c ->
   WInv c w -> poll_write c len sc w = (x, w', sc') ->
-  wres_ok c len w x w' /\ w_cclosed w' = w_cclosed w).
+  wres_ok c len sc w x w' /\ w_cclosed w' = w_cclosed w /\ incl sc' sc).
 Check (C02_write_progress :
   forall c len sc w x w' sc',
   1 <= c_mfl c -> c_mfl c + TAG <= SNOW_MAX -> 1 <= c_wbuf c -> 1 <= len ->
@@ -44,10 +68,13 @@ Check (C02_write_progress :
 Check (C02_write_empty :
   forall c sc w x w' sc', poll_write c 0 sc w = (x, w', sc') ->
   x = WReady 0 \/ (exists e, x = WErr e) \/ x = WPanic).
+Check (C02_writer_monotone :
+  forall c ops sc w tr wf ok, run_writer c ops sc w = (tr, wf, ok) -> wmono w wf).
 Check (C02_flush_complete :
   forall c sc w x w' sc', WInv c w -> poll_flush c sc w = (x, w', sc') ->
-  wres_ok c 0 w x w' /\ w_frames w' = w_frames w /\ w_cclosed w' = w_cclosed w /\
-  (forall n, x = WReady n -> n = 0 /\ w_state w' = WIdle /\ w_sent w' = frames_wire (w_frames w'))).
+  wres_ok c 0 sc w x w' /\ w_frames w' = w_frames w /\ w_cclosed w' = w_cclosed w /\
+  (forall n, x = WReady n -> n = 0 /\ w_state w' = WIdle /\ w_sent w' = frames_wire (w_frames w')) /\
+  incl sc' sc).
 Check (C02_close_flushes :
   forall c, 1 <= c_mfl c -> c_mfl c + TAG <= SNOW_MAX -> 1 <= c_wbuf c ->
   forall sc w x w' sc', WInv c w -> poll_close c sc w = (x, w', sc') ->
@@ -58,11 +85,12 @@ Check (C02_close_flushes :
     w_sent wf = frames_wire (w_frames w) /\ w_cclosed wf = true).
 Check (C02_close_step :
   forall c sc w x w' sc', WInv c w -> poll_close c sc w = (x, w', sc') ->
-  wres_ok c 0 w x w' /\ w_frames w' = w_frames w /\
+  wres_ok c 0 sc w x w' /\ w_frames w' = w_frames w /\
   (w_cclosed w = true -> w_cclosed w' = true) /\
   (forall n, x = WReady n ->
      n = 0 /\ w_state w' = WIdle /\ w_sent w' = frames_wire (w_frames w') /\ w_cclosed w' = true) /\
-  (w_cclosed w' = true -> w_cclosed w = false -> exists n, x = WReady n)).
+  (w_cclosed w' = true -> w_cclosed w = false -> exists n, x = WReady n) /\
+  incl sc' sc).
 Check (C02_end_to_end :
   forall c, 1 <= c_factor c -> 1 <= c_mfl c -> c_mfl c + TAG <= SNOW_MAX -> 1 <= c_wbuf c ->
   forall ops wsc tr w ok, run_writer c ops wsc writer_init = (tr, w, ok) ->
@@ -71,10 +99,50 @@ Check (C02_end_to_end :
   let rt := run_reader (honest_env c plains) bufs rsc (reader_init c) in
   ok = true /\ sum plains = accepted ops tr /\
   (w_state w = WIdle -> sent_frames plains (w_sent w) = plains) /\
-  pieces_ok 0 bufs rt /\
+  pieces_ok 0 bufs rsc rt /\
   honest_ok (wire_len (honest plains)) (accepted ops tr) 0 rt).
+Check (C02_halves_independent :
+  forall c e ops rsc wsc r w recs r' w',
+  run_mixed c e ops rsc wsc r w = (recs, r', w', true) ->
+  rrecs_of recs = run_reader e (reads_of ops) rsc r /\
+  wrecs_of recs = fst (fst (run_writer c (wops_of ops) wsc w)) /\
+  w' = snd (fst (run_writer c (wops_of ops) wsc w))).
+Check (C02_duplex_round :
+  forall c rd F G tr F' G' ok,
+  1 <= c_factor c -> 1 <= c_mfl c -> c_mfl c + TAG <= SNOW_MAX -> 1 <= c_wbuf c ->
+  FInv c F -> FInv c G -> run_round c rd F G = (tr, F', G', ok) ->
+  ok = true /\ FInv c F' /\ FInv c G' /\ round_ok c rd F tr /\
+  f_D F' = f_D F + mdelivered (rt_mixed tr) /\ f_D G' = f_D G /\
+  f_plains F' = f_plains F ++ rt_new tr /\
+  (forall n, fst (rt_flush tr) = WReady n -> f_plains F' = w_frames (snd (rt_flush tr))) /\
+  (forall hon : bool, (hon = true -> Clean F /\ no_tamper (rd_tampers rd)) ->
+     mixed_ok hon (wire_len (f_items F')) (sum (f_plains F')) (f_D F) (rt_mixed tr)) /\
+  (Clean F -> no_tamper (rd_tampers rd) -> Clean F') /\ (Clean G -> Clean G')).
+Check (C02_duplex_rounds :
+  forall c, 1 <= c_factor c -> 1 <= c_mfl c -> c_mfl c + TAG <= SNOW_MAX -> 1 <= c_wbuf c ->
+  forall rds F0 F1 trs A B ok, GInv c F0 F1 -> run_rounds c rds F0 F1 = (trs, A, B, ok) ->
+  ok = true /\ GInv c A B /\ length trs = length rds).
+Check (C02_rounds_compose :
+  forall c pre post F0 F1,
+  run_rounds c (pre ++ post) F0 F1 =
+  let '(t1, A, B, ok1) := run_rounds c pre F0 F1 in
+  if ok1 then let '(t2, A', B', ok2) := run_rounds c post A B in (t1 ++ t2, A', B', ok2)
+  else (t1, A, B, false)).
+Check (C02_connection :
+  forall c, 1 <= c_factor c -> 1 <= c_mfl c -> c_mfl c + TAG <= SNOW_MAX -> 1 <= c_wbuf c ->
+  forall rds trs A B ok, run_rounds c rds (flow_init c) (flow_init c) = (trs, A, B, ok) ->
+  ok = true /\ GInv c A B /\
+  f_D A <= clean_prefix (f_items A) (f_plains A) 0 (f_avail A) /\
+  f_D B <= clean_prefix (f_items B) (f_plains B) 0 (f_avail B)).
+Check (C02_error_kinds :
+  (V.gen.NoiseKinds.noise_kind_codes = table_codes /\
+   forallb (fun k => ecode k =? k) V.gen.NoiseKinds.noise_kind_codes = true) /\
+  V.gen.NoiseKinds.noise_read_kinds = [E_EOF; E_INVALID; E_PERM] /\
+  V.gen.NoiseKinds.noise_write_kinds = [E_INVALID; E_WRITEZERO]).
 Check (C02_constants :
   1 <= V.gen.Consts.MAX_FRAME_LEN /\ V.gen.Consts.MAX_FRAME_LEN + TAG <= SNOW_MAX /\
-  1 <= V.gen.Consts.MAX_READ_AHEAD_FACTOR /\ 1 <= V.gen.Consts.MAX_WRITE_BUFFER_SIZE).
+  1 <= V.gen.Consts.MAX_READ_AHEAD_FACTOR /\ 1 <= V.gen.Consts.MAX_WRITE_BUFFER_SIZE /\
+  1 <= V.gen.Consts.TCP_NOISE_READ_AHEAD_DEFAULT /\ 1 <= V.gen.Consts.TCP_NOISE_WRITE_BUFFER_DEFAULT /\
+  1 <= V.gen.Consts.WS_NOISE_READ_AHEAD_DEFAULT /\ 1 <= V.gen.Consts.WS_NOISE_WRITE_BUFFER_DEFAULT).
 Check (C02_unfixed_refuted :
   exists len sc, fst (fst (poll_write (mkCfg 5 2 65520) len sc writer_init)) = WErr E_INVALID).
